@@ -48,11 +48,12 @@ func (config *CacheConfig) Verify() error {
 func (config *CacheConfig) getChunkConfig() immunityChunkConfig {
 	numChunks := core.MaxUint32(config.NumChunks, 1)
 
+	// a chunk limit of zero would make the chunk refuse every item or evict nothing
 	return immunityChunkConfig{
 		cacheName:                   config.Name,
-		maxNumItems:                 config.MaxNumItems / numChunks,
-		maxNumBytes:                 config.MaxNumBytes / numChunks,
-		numItemsToPreemptivelyEvict: config.NumItemsToPreemptivelyEvict / numChunks,
+		maxNumItems:                 core.MaxUint32(config.MaxNumItems/numChunks, 1),
+		maxNumBytes:                 core.MaxUint32(config.MaxNumBytes/numChunks, 1),
+		numItemsToPreemptivelyEvict: core.MaxUint32(config.NumItemsToPreemptivelyEvict/numChunks, 1),
 	}
 }
 
